@@ -15,6 +15,7 @@ import (
 	"reflect"
 	"sort"
 	"strings"
+	"time"
 
 	"perkeep.org/pkg/auth"
 	"perkeep.org/pkg/blob"
@@ -80,7 +81,14 @@ func (s *srvWorld) close() {
 		s.closer.Close()
 	}
 	if s.tmp != "" {
-		os.RemoveAll(s.tmp)
+		// (a sqlite index keeps writing its -wal/-shm files for a moment after Close)
+		for i := 0; i < 20; i++ {
+			os.RemoveAll(s.tmp)
+			if _, err := os.Stat(s.tmp); err != nil {
+				break
+			}
+			time.Sleep(25 * time.Millisecond)
+		}
 	}
 }
 
@@ -161,7 +169,21 @@ func plainJSON(v map[string]any) (map[string]any, error) {
 	return out, nil
 }
 
-func buildServer(spec string) (*srvWorld, error) {
+func buildServer(spec string) (s *srvWorld, err error) {
+	tmp := ""
+	defer func() {
+		// serverinit panics on some configurations it cannot handle
+		if e := recover(); e != nil {
+			if tmp != "" {
+				os.RemoveAll(tmp)
+			}
+			s, err = nil, fmt.Errorf("panic: %v", e)
+		}
+	}()
+	return buildServer1(spec, &tmp)
+}
+
+func buildServer1(spec string, tmpOut *string) (*srvWorld, error) {
 	m, ok := parseSpec(spec)
 	if !ok {
 		return nil, fmt.Errorf("bad spec")
@@ -174,6 +196,7 @@ func buildServer(spec string) (*srvWorld, error) {
 	if err != nil {
 		return nil, err
 	}
+	*tmpOut = tmp
 	s := &srvWorld{spec: spec, tmp: tmp, installed: map[string]http.Handler{}, prefixes: map[string]prefixInfo{}, authKind: m["auth"]}
 	fail := func(err error) (*srvWorld, error) { s.close(); return nil, err }
 	os.Setenv("CAMLI_CONFIG_DIR", filepath.Join(tmp, "cfg"))
